@@ -103,7 +103,7 @@ func init() {
 	for _, w := range strings.Fields(`S O Z N Q fst snd nth firstn skipn length rev negb andb orb true false tt
  Ok Err Panic Some None bytes point signature ppoint res list nat bool unit repeat app set_nth copy_into
  copy_at be_val min_be_bytes hex_encode let in if then else match with end fun forall as return at mod
- blake512 poseidon5 mimc7h SrcBytes SrcString SrcInt SrcNil SrcOther scan_src bind is_ok exists Type Prop Set
+ blake512 poseidon5 mimc7h hades absorb SrcBytes SrcString SrcInt SrcNil SrcOther scan_src bind is_ok exists Type Prop Set
  Definition Lemma Section Variable Module End Import fix cofix struct where using IF`) {
 		reserved[w] = true
 	}
